@@ -24,7 +24,8 @@ ASSUMPTIONS = [
     "reference integrals: 14x14 collapsed Gauss-Jacobi rule from scipy roots in long double (self-checked against i!j!/(i+j+2)! to 1e-14 in every worker)",
     "a quadrature point's physical position is the affine image of its reference position; reference domain = triangle (1,0),(0,1),(0,0) as documented in QuadratureRule",
     "higher-order meshes: 3 of 4 are built by the harness from parentElement.coordinates alone (affine images, geometric node merging, shuffled numbering; "
-    "no vertex/face/interior index table used), 1 of 4 by the library's own order elevation (validated before use; an invalid one makes the case vacuous)",
+    "no vertex/face/interior index table used), 1 of 4 by the library's own order elevation, taken as returned: nodal values are sampled at its own node coordinates and every clause is judged against "
+    "the geometry of the simplex mesh that was put in; a failed structural check of it is only counted (library_mesh_structural_check_failed, C13's clause)",
     "tolerances: shape sums / reproduced values 50*eps*(order+1)^2*scale (scale = max |monomial| over the mesh nodes; 1 for partition of unity; "
     "max |coordinate| for quadrature-point positions); gradients the same divided by the element's smallest altitude (DESIGN's rounding bound x safety)",
     "integrals: 1e-13 relative to (sum of |quadrature volumes|) * max|integrand| (tables carry 15-16 digits); 1-D rules 1e-13 absolute on [0,1]",
@@ -266,29 +267,44 @@ def run_mesh(case, res, rng):
     i, p, bubble = case["i"], case["order"], case["bubble"]
     spec = _mesh_spec(rng, i, case.get("tier", "quick"))
     elevation = case.get("elevation", "library")
-    pts, tri, mesh = _build_mesh(rng, spec, p, bubble, elevation)
+    if p > 1 and elevation == "library":
+        res.count("mesh_elevated_by_library")            # attempts: a broken elevation must not starve the required count
+    try:
+        pts, tri, mesh = _build_mesh(rng, spec, p, bubble, elevation)
+    except Exception as e:  # noqa
+        if p > 1 and elevation == "library":
+            res.count("library_elevation_raised")
+            res.vacuous("the library's order elevation raised %s: no function space to judge" % type(e).__name__)
+            return
+        raise
     nE = len(tri)
     coords = onp.asarray(mesh.coords, dtype=float)
     conns = onp.asarray(mesh.conns)
     pe = mesh.parentElement
-    # vertex columns located by geometry (reference nodes sitting on (1,0), (0,1), (0,0)), not through the library's index table
+    # The geometry every clause is judged against is the simplex mesh that was put in (pts, tri): element e is the affine image of
+    # the reference triangle with (1,0), (0,1), (0,0) -> pts[tri[e]].  Harness-built meshes must agree with it exactly; a mesh
+    # elevated by the library is taken as returned (that is the only way a user gets one): a structural defect of it is counted
+    # as an observation (C13's clause) and the C03 clauses are judged on it regardless.
     refc = onp.asarray(pe.coordinates, dtype=float)
     Vn = onp.array([int(onp.argmin(onp.abs(refc - onp.array(v)).sum(axis=1))) for v in ((1.0, 0.0), (0.0, 1.0), (0.0, 0.0))])
-    vtri = conns[:, Vn]
-    area_e = onp.asarray(X.shoelace_area(coords, vtri), dtype=float)
+    vtri = tri
+    area_e = onp.asarray(X.shoelace_area(pts, tri), dtype=float)
     lam_all = onp.column_stack((refc[:, 0], refc[:, 1], 1.0 - refc[:, 0] - refc[:, 1]))
-    img = onp.einsum("ak,ekd->ead", lam_all, coords[vtri])
-    valid = bool(onp.all(area_e > 0)) and onp.array_equal(coords[vtri], pts[tri]) and \
+    img = onp.einsum("ak,ekd->ead", lam_all, pts[tri])
+    valid = conns.ndim == 2 and conns.shape == (nE, refc.shape[0]) and conns.min() >= 0 and conns.max() < len(coords)
+    valid = bool(valid) and onp.array_equal(coords[conns[:, Vn]], pts[tri]) and \
         float(onp.abs(img - coords[conns]).max()) <= 1e-13 * (float(onp.abs(coords).max()) + 1e-300) * 10 and len(onp.unique(conns)) == len(coords)
     if not valid:
         if p > 1 and elevation == "library":
-            res.vacuous("the library's order elevation returned an invalid mesh (C13 territory): hypothesis 'valid mesh' not met")
+            res.count("library_mesh_structural_check_failed")
         else:
             res.inconclusive("harness built an invalid mesh")
-        return
-    res.count("mesh_elevated_by_" + ("none" if p == 1 else elevation))
+            return
+    if not (p > 1 and elevation == "library"):
+        res.count("mesh_elevated_by_" + ("none" if p == 1 else elevation))
+    coords_g = pts                                        # geometry arrays for the oracle: the input simplex mesh
     area = float(area_e.sum())
-    h_e = X.min_altitude(coords, vtri)
+    h_e = X.min_altitude(coords_g, vtri)
     sides = meshes.boundary_sides(tri)
     if nE >= 2 and (3 * nE - len(sides)) // 2 >= 1:
         res.nontrivial = True
@@ -327,7 +343,7 @@ def run_mesh(case, res, rng):
         res.count("gradsum_points", nE * nq)
         # independent physical quadrature points
         lam = _bary_of_ref_points(pe, quad.xigauss)
-        Xq = onp.einsum("qk,ekd->eqd", lam, coords[vtri])
+        Xq = onp.einsum("qk,ekd->eqd", lam, coords_g[vtri])
         Xq_lib = onp.asarray(FunctionSpace.interpolate_to_points(fs, mesh.coords))
         cs = onp.abs(coords).max()
         res.bound("mesh.quadrature_point_positions", onp.abs(Xq_lib - Xq).max(), tolS * cs, det)
@@ -349,8 +365,8 @@ def run_mesh(case, res, rng):
         res.count("vol_sum_checks")
         # (e) exact integration of the full monomial basis up to the rule's degree
         mon_D = monos(D)
-        ref_c, _ = X.monomial_integrals(coords, vtri, mon_D, r_weight=False)
-        ref_a, _ = X.monomial_integrals(coords, vtri, mon_D, r_weight=True)
+        ref_c, _ = X.monomial_integrals(coords_g, vtri, mon_D, r_weight=False)
+        ref_a, _ = X.monomial_integrals(coords_g, vtri, mon_D, r_weight=True)
         A_e = jnp.array([float(a) for a, _ in mon_D])
         B_e = jnp.array([float(b) for _, b in mon_D])
 
@@ -415,7 +431,7 @@ def run_mesh(case, res, rng):
             tx = [(cx, a, b)] if cx else []
             ty = [(cy, c, d)] if cy else []
             div_terms = ([(cx * a, a - 1, b)] if cx and a > 0 else []) + ([(cy * d, c, d - 1)] if cy and d > 0 else [])
-            rhs, _ = X.integrate_poly_terms(coords, vtri, div_terms) if div_terms else (0.0, 0.0)
+            rhs, _ = X.integrate_poly_terms(coords_g, vtri, div_terms) if div_terms else (0.0, 0.0)
             ref_flux, ref_abs = X.edge_flux_terms(pts, segs, tx, ty)
             Fmax = max(abs(cx) * (onp.abs(_pw(pts[bnodes, 0], a) * _pw(pts[bnodes, 1], b)).max() if cx else 0.0),
                        abs(cy) * (onp.abs(_pw(pts[bnodes, 0], c) * _pw(pts[bnodes, 1], d)).max() if cy else 0.0))
@@ -464,7 +480,7 @@ def run_mesh(case, res, rng):
                     if vy != 0:
                         div_terms.append((vy * (b + 1), a, b))
                     Fm += (abs(wx) + abs(wy) + (abs(vx) + abs(vy)) * cs) * Uscale[m]
-                rhs, _ = X.integrate_poly_terms(coords, vtri, div_terms) if div_terms else (0.0, 0.0)
+                rhs, _ = X.integrate_poly_terms(coords_g, vtri, div_terms) if div_terms else (0.0, 0.0)
                 res.bound("mesh.divergence_theorem_field_u", abs(lhs_u[k] - rhs), TOL_INT * perim * Fm, dict(det0, rule1d_degree=q1d, row=k))
                 res.count("divergence_field_u")
                 res.count("divergence_checks")
